@@ -725,6 +725,6 @@ class tcp (packet_base):
     elif ip_ver == 6:
       ph = self.prev.srcip.raw + self.prev.dstip.raw
       ph += struct.pack('!IHBB', payload_len, 0, 0,
-                        self.prev.next_header_type)
+                        self.prev.TCP_PROTOCOL)
 
       return checksum(ph + payload, 0, 28)
